@@ -1,6 +1,6 @@
 import CanvasModel.C09
 /-!
-# C09 — structural model of `Path.SplitAt` (path.go, after 91f82bb / 2c6f66f / feae37f)
+# C09 — structural model of `Path.SplitAt` (path.go, after 221f70c / 6f95aa6 / fc041fc)
 
 Everything `SplitAt` does except the numerics of the arc-length inversion: sorting a copy of the
 positions, dropping a leading 0, walking over the subpaths of `Split()`, the selection of the cuts
